@@ -190,13 +190,13 @@ Proof. intros H. rewrite format64_spec by (auto; lia). reflexivity. Qed.
 (* Part 2: ToTM                                                        *)
 
 Definition al_ok' (al : alookup) : Prop :=
-  valid_fields (al_cs al) = true /\ int64 (fy (al_cs al)) /\ -86400 <= al_off al <= 86400.
+  valid_fields (al_cs al) = true /\ int64 (fy (al_cs al)) /\ -93599 <= al_off al <= 93599.
 
 Lemma to_tm_wday_spec z : to_tm_wday (weekday_of_days z) = (weekday_of_days z + 1) mod 7.
 Proof. unfold to_tm_wday, weekday_of_days. destruct (_ =? 6) eqn:E; lia. Qed.
 
 Lemma to_tm_spec_lemma : forall al,
-  (valid_fields (al_cs al) = true /\ int64 (fy (al_cs al)) /\ -86400 <= al_off al <= 86400) ->
+  (valid_fields (al_cs al) = true /\ int64 (fy (al_cs al)) /\ -93599 <= al_off al <= 93599) ->
   to_tm al = OK (spec_tm (al_cs al) (al_dst al)).
 Proof.
   intros al (V & I & _). unfold to_tm, spec_tm.
@@ -254,25 +254,25 @@ Definition off_check (off : Z) : bool :=
   res_eqb (format_offset off [58]) (render_offset off [58] false false) &&
   res_eqb (format_offset off [58; 42]) (render_offset off [58] true false) &&
   res_eqb (format_offset off [58; 42; 58]) (render_offset off [58] true true).
-Lemma off_sweep : forallb off_check (zrange (-86400) (Z.to_nat 172801)) = true.
+Lemma off_sweep : forallb off_check (zrange (-93599) (Z.to_nat 187199)) = true.
 Proof. vm_compute. reflexivity. Qed.
 
-Lemma off_all off : -86400 <= off <= 86400 -> off_check off = true.
+Lemma off_all off : -93599 <= off <= 93599 -> off_check off = true.
 Proof.
   intros H. pose proof off_sweep as S. rewrite forallb_forall in S. apply S.
   apply zrange_In. lia.
 Qed.
 
-Lemma format_offset_z off : -86400 <= off <= 86400 ->
+Lemma format_offset_z off : -93599 <= off <= 93599 ->
   format_offset off [] = OK (render_offset off [] false false).
 Proof. intros H. apply off_all in H. unfold off_check in H. rewrite !andb_true_iff in H. apply res_eqb_eq. tauto. Qed.
-Lemma format_offset_cz off : -86400 <= off <= 86400 ->
+Lemma format_offset_cz off : -93599 <= off <= 93599 ->
   format_offset off [58] = OK (render_offset off [58] false false).
 Proof. intros H. apply off_all in H. unfold off_check in H. rewrite !andb_true_iff in H. apply res_eqb_eq. tauto. Qed.
-Lemma format_offset_ccz off : -86400 <= off <= 86400 ->
+Lemma format_offset_ccz off : -93599 <= off <= 93599 ->
   format_offset off [58; 42] = OK (render_offset off [58] true false).
 Proof. intros H. apply off_all in H. unfold off_check in H. rewrite !andb_true_iff in H. apply res_eqb_eq. tauto. Qed.
-Lemma format_offset_cccz off : -86400 <= off <= 86400 ->
+Lemma format_offset_cccz off : -93599 <= off <= 93599 ->
   format_offset off [58; 42; 58] = OK (render_offset off [58] true true).
 Proof. intros H. apply off_all in H. unfold off_check in H. rewrite !andb_true_iff in H. apply res_eqb_eq. tauto. Qed.
 
@@ -1442,7 +1442,7 @@ Variable rec : list Z -> list Z -> list Z -> res (list Z).
 Variable cx : fctx.
 Hypothesis Hcx : cx_ok cx.
 
-Lemma cx_off : -86400 <= al_off (fc_al cx) <= 86400.
+Lemma cx_off : -93599 <= al_off (fc_al cx) <= 93599.
 Proof. destruct Hcx as ((_ & _ & H) & _). exact H. Qed.
 
 Lemma impl_digits (K : list Z -> list Z -> res (list Z)) (D : res (list Z)) d r4 k r' :
@@ -1661,7 +1661,7 @@ Lemma cx_ok_mk al fs unix : al_ok' al -> 0 <= fs < 10 ^ 15 -> int64 unix ->
 Proof. intros H1 H2 H3. repeat split; try apply H1; try apply H2; try apply H3. Qed.
 
 Lemma format_safe_lemma : forall strftime_o fmt al fs unix,
-  (valid_fields (al_cs al) = true /\ int64 (fy (al_cs al)) /\ -86400 <= al_off al <= 86400) ->
+  (valid_fields (al_cs al) = true /\ int64 (fy (al_cs al)) /\ -93599 <= al_off al <= 93599) ->
   0 <= fs < 10 ^ 15 -> int64 unix ->
   exists r, format_impl strftime_o fmt al fs unix = OK r.
 Proof.
@@ -1870,7 +1870,7 @@ End LibOnly.
 Lemma format_lib_only_lemma : forall strftime_o fmt al fs unix tm,
   forallb (fun c => negb (c =? 0)) fmt &&
   forallb (fun t => match t with FLit _ | FPct | FLib _ => true | _ => false end) (lex fmt) = true ->
-  (valid_fields (al_cs al) = true /\ int64 (fy (al_cs al)) /\ -86400 <= al_off al <= 86400) ->
+  (valid_fields (al_cs al) = true /\ int64 (fy (al_cs al)) /\ -93599 <= al_off al <= 93599) ->
   0 <= fs < 10 ^ 15 -> int64 unix ->
   format_impl strftime_o fmt al fs unix
   = OK (render_spec strftime_o fmt (al_cs al) (al_off al) (al_abbr al) fs unix tm).
